@@ -6,8 +6,8 @@ META = {
     "property_id": "C12",
     "level": "model_checking",
     "technique": "TLA+ spec of the trie sync scheduler (TrieSync.tla) model-checked with TLC over targets with storage tries, shared codes and identical subtries, for all closed pre-populated databases, delivery orders, batch sizes, repeats and commit points; TLC-generated schedules executed on state.NewStateSync over real databases in both schemes; every call validated against TrieSyncTrace.tla",
-    "text": "TrieSync.tla models NewSync/AddSubTrie/AddCodeEntry/Missing/ProcessNode/ProcessCode/Commit as the code does them (requests per path, existence looked up in the database only, by hash or by path+hash with deletion of a different node and of dangling nodes inside extension keys, dependency counters, bottom-up batch). TLC checks on a built-in target and on targets built from real states: only target nodes/codes are requested and written, the database and the pending batch stay child-closed (no node before its children), dependency counters are exact, MemSize equals the batch contents, and nothing pending implies the whole target is stored; termination is checked as a liveness property. Schedules sampled by TLC (initial database, batch sizes, order, repeats, early and undecodable answers, commits) are executed on the real scheduler; each call's error class, Missing set, Pending(), MemSize() and database listing must be a step of the specification, and a finished sync is re-read through the database and compared with the source state.",
-    "note": "Trusts TLC and the id mapping of harness/cmd/c12. The local database before the sync is assumed child-closed with respect to the target (what the sync itself maintains). A delivery whose hash differs from the requested hash is filtered in eth/protocols/snap (OnTrieNodes/onHealByteCodes) before trie.Sync sees it; at the trie.Sync API only undecodable blobs can be rejected - that part of the statement is bound at the scheduler level only (see spec/trie/NOTES.md).",
+    "text": "TrieSync.tla models NewSync/AddSubTrie/AddCodeEntry/Missing/ProcessNode/ProcessCode/Commit as the code does them (requests per path, existence looked up in the database only, by hash or by path+hash with deletion of a different node and of dangling nodes inside extension keys, dependency counters, bottom-up batch). TLC checks on a built-in target and on targets built from real states: only target nodes/codes are requested and written, the database and the pending batch stay child-closed (no node before its children), dependency counters are exact, MemSize equals the batch contents, and nothing pending implies the whole target is stored; termination is checked as a liveness property. Schedules sampled by TLC (initial database, batch sizes, order, repeats, early and undecodable answers, commits) are executed on the real scheduler; each call's error class, Missing set, Pending(), MemSize() and database listing must be a step of the specification, and a finished sync is re-read through the database and compared with the source state. The hash cross-reference of responses (HealFilter.tla) is model-checked for all short requests/responses and validated on heal-only runs of the real snap/1 syncer fed with corrupted, extra and reordered blobs: verdict per response as specified, final database complete and free of foreign blobs.",
+    "note": "Trusts TLC and the id mapping of harness/cmd/c12. The local database before the sync is assumed child-closed with respect to the target (what the sync itself maintains). A delivery whose hash differs from the requested hash is filtered in eth/protocols/snap (OnTrieNodes/onHealByteCodes) before trie.Sync sees it (trie.Sync itself only rejects undecodable blobs): that clause is specified in HealFilter.tla and bound by heal-only runs of snap.NewV1Syncer against a tampering harness peer (requests there carry one node each, so gaps/reordering are covered by the model only).",
     "design_ref": "3.2 C12",
 }
 
@@ -61,14 +61,17 @@ def run(ctx):
     ctx.model_check("trie/MCTrieSyncLive", "trie/MCTrieSyncLive", timeout=7200, name="MCTrieSyncLive", workers=ctx.pick(4, 8))
 
     # R: targets from real states: exhaustive MC of the target, then TLC-sampled schedules on the real scheduler
-    targets = [0, 1, 2, 3]
-    use = targets if ctx.thorough else [targets[ctx.seed % 4], targets[(ctx.seed + 1) % 4]]
-    k = 0
-    for t in use:
+    # target 3 (extension root with an outdated node inside its key range, identical sub-tries at two
+    # places) always in the path scheme; one more target per seed in the hash scheme; all x both in thorough
+    if ctx.thorough:
+        plan = [(t, sc) for t in (0, 1, 2, 3) for sc in ("path", "hash")]
+    else:
+        plan = [(3, "path"), ((0, 1, 2)[ctx.seed % 3], "hash")]
+    for t, scheme in plan:
         wp = os.path.join(ctx.scratch, "world%d.json" % t)
-        ctx.drive(drv, ["-mode", "world", "-target", t, "-world", wp], name="c12-world%d" % t)
-        for scheme in (["path", "hash"] if ctx.thorough else [["path", "hash"][(k + ctx.seed) % 2]]):
-            k += 1
+        if not os.path.exists(wp):
+            ctx.drive(drv, ["-mode", "world", "-target", t, "-world", wp], name="c12-world%d" % t)
+        if True:
             mod, w = world_module(ctx, "MCTrieSyncW%d%s" % (t, scheme), "MCTrieSyncBase", wp, scheme)
             ctx.model_check(mod, "trie/MCTrieSyncWorld", timeout=7200, name="MCTrieSync[target %d, %s]" % (t, scheme), workers=ctx.pick(4, 8))
             res = ctx.tlc(mod, "trie/MCTrieSyncSim", simulate="num=%d" % ctx.pick(60, 600), depth=45, tags=("MBT",), timeout=3600,
@@ -97,6 +100,18 @@ def run(ctx):
                              name="c12-record[%s]" % scheme, timeout=3600)
             if not s.get("violations"):
                 validate(ctx, "TrieSyncTraceR%d%s" % (j, scheme), wp, scheme, tp, s["traces"], "random %d, %s" % (j, scheme))
+    # the hash filter in front of the scheduler: guarantees of HealFilter.tla for all short requests/responses,
+    # and heal-only runs of the real snap/1 syncer against a tampering peer (corrupted / extra / reordered blobs)
+    ctx.model_check("trie/MCHealFilter", "trie/MCHealFilter", timeout=3600, name="MCHealFilter", workers=2)
+    for i, scheme in enumerate(["path", "hash"]):
+        tgt = -(7 + i) if not ctx.thorough else -(7 + i)
+        tp = os.path.join(ctx.scratch, "heal-%s.ndjson" % scheme)
+        s, _ = ctx.drive(drv, ["-mode", "heal", "-target", tgt, "-scheme", scheme, "-trace", tp, "-n", ctx.pick(8, 60)],
+                         name="c12-heal[%s]" % scheme, timeout=7200)
+        if not s.get("violations"):
+            ok, consumed, total, r = ctx.validate("trie/HealTrace", tp, ntraces=s["traces"], timeout=3600, name="HealTrace[%s]" % scheme)
+            if not ok:
+                ctx.reject_trace("trie/HealTrace", tp, consumed, r)
     return ctx.finish(rule="MC: all schedules over the built-in target and over targets of real states (all child-closed initial databases, batch sizes, delivery orders, repeats, commit points); R: TLC-sampled schedules on state.NewStateSync; V: random schedules on random larger states; both schemes",
                       assumptions=["local database child-closed w.r.t. the target before the sync",
                                    "deliveries reaching trie.Sync carry the blob of the requested hash (hash filter lives in eth/protocols/snap)",
